@@ -308,6 +308,37 @@ pub open spec fn buy_unit(amount: real, price: real, fees: real, offset: real) -
     if amount != 0real { (amount * price + fees + offset) / amount } else { 0real }
 }
 
+
+// ---------- 30-day rule ----------
+pub open spec fn ratios_ok(txs: Seq<GbpTransaction>) -> bool {
+    forall|i: int| 0 <= i < txs.len() ==> (((#[trigger] txs[i]).operation is Split ==> txs[i].operation->Split_ratio.v() > 0real)
+        && (txs[i].operation is Unsplit ==> txs[i].operation->Unsplit_ratio.v() >= 0real))
+}
+pub open spec fn leg_acq_d(m: MatchResult) -> int { m.match_detail.acquisition_date->Some_0.d() }
+/// C01.window + C04: a 30-day leg of `sell`
+pub open spec fn bnb_leg_ok(m: MatchResult, sell: GbpTransaction) -> bool {
+    &&& m.match_detail.rule == MatchRule::BedAndBreakfast
+    &&& m.match_detail.acquisition_date is Some
+    &&& in_bnb_window(sell.date.d(), leg_acq_d(m))
+    &&& m.match_detail.quantity.v() >= 0real
+    &&& leg_figures(m, sell, m.match_detail.quantity.v(), sell_qty(sell), sell_price(sell), sell_fees(sell))
+}
+/// claims never exceed the purchase they are made against (C02.day_cap, per acquisition)
+pub open spec fn fc_capped(fc: Map<usize, Decimal>, txs: Seq<GbpTransaction>) -> bool {
+    forall|i: usize| #![trigger fc_get(fc, i)] (i as int) < txs.len() && txs[i as int].operation is Buy ==> 0real <= fc_get(fc, i) <= buy_qty(txs[i as int])
+}
+/// what a 30-day look-ahead from `sell_idx` may change in the claim ledger (C01.claim_ledger, C09.frame, C12.lookahead)
+pub open spec fn fc_step(fc0: Map<usize, Decimal>, fc1: Map<usize, Decimal>, txs: Seq<GbpTransaction>, sell_idx: int) -> bool {
+    &&& forall|i: usize| #![trigger fc_get(fc1, i)] fc_get(fc1, i) >= fc_get(fc0, i)
+    &&& forall|i: usize| #![trigger fc_get(fc1, i)] fc_get(fc1, i) != fc_get(fc0, i) ==> sell_idx < i < txs.len()
+          && txs[i as int].ticker@ == txs[sell_idx].ticker@ && txs[i as int].operation is Buy
+          && in_bnb_window(txs[sell_idx].date.d(), txs[i as int].date.d())
+}
+pub open spec fn sdr_step(s0: Map<(int, Seq<char>), Decimal>, s1: Map<(int, Seq<char>), Decimal>, ticker: Seq<char>) -> bool {
+    &&& forall|k: (int, Seq<char>)| s0.contains_key(k) ==> #[trigger] s1.contains_key(k)
+    &&& forall|k: (int, Seq<char>)| k.1 != ticker && #[trigger] s1.contains_key(k) ==> s0.contains_key(k) && s1[k] == s0[k]
+}
+
 // ---------- proceeds ----------
 /// C04.pro_rata: the share of the day's sale attributed to a leg of q out of Q shares
 pub open spec fn pro_rata_gross(q: real, price: real) -> real { q * price }
